@@ -123,6 +123,19 @@ func checkC18(c *Checker) {
 			c.expect(ok, "C18-H4", "PoolAllocator.Put", c.pos(fn.Pos()), "the buffer reaches sync.Pool.Put on every returning path", d)
 		}
 	}
+	// H5: "within capacity" must mean the same for a window and for its parent. A window that drops part of the
+	// remaining storage of its parent makes Append reallocate although the shared storage would hold the samples
+	// (C02-R1: the window is data[start:end], which keeps the whole remaining capacity).
+	c.rule("C18-H5", "a window keeps the whole remaining capacity of its parent, so appending within the shared storage's capacity stays in place (C02-R1)", 1)
+	subS := newChecker(c.Prop, c.Tier, c.Seed, c.verifDir)
+	subS.W = c.W
+	subS.sums = c.sums
+	checkC02(subS)
+	for _, o := range subS.Obligs {
+		if o.Rule == "C02-R1" {
+			c.add("C18-H5", o.Rule+"/"+o.Instance, o.Pos, o.Verdict, o.Detail, o.Witness)
+		}
+	}
 	if c.Tier == "thorough" {
 		compilerCrossCheck(c, hot)
 	}
@@ -170,7 +183,7 @@ func varargsOnlyInPlace(obj *Object, o Outcome) bool {
 
 func checkC19(c *Checker) {
 	c.rule("C19-N1", "read paths are pure: no store rooted at the receiver/source (header or elements), no global, no external effect; only fresh objects and the caller-supplied destination are written", 25)
-	c.rule("C19-N2", "writers usable through a Slice window store only through bounds-checked indices of the destination header's own slice and write no header field", 4)
+	c.rule("C19-N2", "writers usable through a Slice window (sample setters, Write, WriteStriped, the conversions as destination) store only through bounds-checked indices of the destination header's own slice and write no header field", 13)
 	c.rule("C19-N3", "no package-level variable, sync/atomic use or lazy initialisation that a reachable function writes", 1)
 	c.NotDecided = append(c.NotDecided, "the race detector's dynamic verdict", "tearing of multi-word loads on exotic platforms", "equality with the sequential result follows from N1-N3 (no path reads state another goroutine writes); it is not executed")
 	readers := []struct {
@@ -224,6 +237,13 @@ func checkC19(c *Checker) {
 		name string
 		dst  int
 	}{{"(*Buffer[T]).SetSample", 0}, {"Write", 1}, {"WriteStriped", 1}, {"(C[T]).SetSample", 0}}
+	// a conversion writes its destination: used through a window it is a writer like Write
+	for _, n := range conversionNames {
+		writers = append(writers, struct {
+			name string
+			dst  int
+		}{n, 1})
+	}
 	for _, wr := range writers {
 		fn := c.anchor("C19-N2", wr.name)
 		if fn == nil {
